@@ -48,6 +48,10 @@ def run(c):
         r = c.tlc("CacheConc", cfg, timeout=600, label="witness: " + why)
         if r.violated != inv:
             raise Broken("witness run %s did not produce the expected counterexample (%s): the model is vacuous" % (cfg, inv))
+    c.tlc_model("ClockFirstUse", "MC_ClockFirstUse.cfg", timeout=600, label="3 goroutines first using one persisted clock: lookup, load and publication in one critical section")
+    r = c.tlc("ClockFirstUse", "MC_ClockFirstUse_split.cfg", timeout=600, label="witness: load outside the lock, publication without looking again")
+    if r.violated != "Unique":
+        raise Broken("witness run MC_ClockFirstUse_split.cfg did not produce the expected counterexample (Unique): the model is vacuous")
     runs = 32 if c.tier == "quick" else 600
     out = os.path.join(c.scratch, "conc.ndjson")
     c.vh(["conc", out, runs], timeout=3400)
@@ -62,6 +66,7 @@ def run(c):
     c.cov["runs_where_eviction_possible"] = sum(1 for e in runs_ev if e["mayevict"])
     c.cov["acknowledged_operations"] = sum(len(e["acks"]) for e in runs_ev)
     c.cov["clock_rounds"] = len(evs) - len(runs_ev)
+    c.cov["clock_rounds_first_use_concurrent"] = sum(1 for e in evs if e["ev"] == "Clock" and e.get("cold"))
     e0 = runs_ev[0]
     c.sample({"config": e0["config"], "acks": e0["acks"][:3], "stored": [b["stored"][:3] for b in e0["bugs"]][:2], "agrees": e0["agrees"]})
     if c.cov["acknowledged_operations"] < 50:
@@ -73,7 +78,7 @@ def run(c):
         else:
             key = "conc:" + s
         what = "%s; config %s; errors %s; %s" % (s, json.dumps(ev.get("config", {})), ev.get("errors", [])[:3], (ev.get("diff") or ev.get("crash") or "")[:600]) if ev["ev"] == "Run" else \
-            "%d goroutines incrementing one persisted clock: memory %d, file %d, largest issued %d, unique %s" % (ev["workers"], ev["mem"], ev["file"], ev["max"], ev["unique"])
+            "%d goroutines incrementing one persisted clock%s: memory %d, file %d, largest issued %d, unique %s" % (ev["workers"], " they are the first to use in this process" if ev.get("cold") else "", ev["mem"], ev["file"], ev["max"], ev["unique"])
         c.report(key, what, {"config": ev.get("config"), "event": {k: ev[k] for k in ev if k not in ("diff", "acks", "bugs", "maybes")}})
     e = json.loads(json.dumps(runs_ev[0]))
     if e["acks"] and e["bugs"]:
@@ -95,7 +100,10 @@ def replay(c, rep):
     c.cov["states"] = c.cov["transitions"] = 1
     c.sample(rep["replay"])
     out = os.path.join(c.scratch, "conc.ndjson")
-    c.vh(["conc", out, 32], timeout=3000)
+    if rep["key"].startswith("conc:clock"):
+        c.vh(["conc-clock", out, 300], timeout=3000)
+    else:
+        c.vh(["conc", out, 32], timeout=3000)
     lines = [l.rstrip("\n") for l in open(out)]
     n_ok, failures = tv.validate_dropping(c, "CacheConcTrace", "CacheConcTrace.cfg", lines, "replay", max_fail=40)
     for ev, reason in failures:
